@@ -218,9 +218,11 @@ Definition fnormalize (B sig ex : Z) : Z * Z :=
 (** ** ErrorBounds::error_bounds per mode: (L, R, incl_l, incl_r) as fractions; the half ulp of
     the two Half modes is ceil(B/2) * B^(e-1) as in the source.  [sig] is the stored (normalised,
     non-zero) significand, [dg] its digit count, [p] the precision (0 = unlimited).
-    State of the source after the repairs of findings F05 (HalfEven: parity of the significand of
-    full precision) and F08 (Away/Up/Down: unlimited precision returns (0, 0, true, true)). *)
-Definition error_bounds_asis (B : Z) (md : mode) (p sig ex : Z) : result (frac * frac * bool * bool) :=
+
+    [error_bounds_r2]: state of the source after the repairs of findings F05 (HalfEven: parity of the
+    significand of full precision) and F08 (Away/Up/Down: unlimited precision returns (0, 0, true,
+    true)) and BEFORE the repair of F07; kept to state the refutation of F07. *)
+Definition error_bounds_r2 (B : Z) (md : mode) (p sig ex : Z) : result (frac * frac * bool * bool) :=
   let zero : frac := (0, 1) in
   let dg := ndigits B (Z.abs sig) in
   let e := ex + dg - p in
@@ -244,16 +246,57 @@ Definition error_bounds_asis (B : Z) (md : mode) (p sig ex : Z) : result (frac *
       else let incl := negb (Z.odd sig) || ((B mod 2 =? 0) && (dg <? p)) in Ok (half, half, incl, incl)
   end.
 
+(** float/src/round.rs is_power_of_base: the magnitude of the float is a power of the base iff the
+    stored (normalised) significand is +-1 *)
+Definition is_power_of_base (sig : Z) : bool := Z.abs sig =? 1.
+
+(** today's source (after the repair of F07): the bound on the side of zero goes through
+    towards_zero(f, width), which lowers the exponent of the width by one when f is a power of the
+    base; HalfEven includes the tie on the side of zero of a power of the base iff the base is even *)
+Definition error_bounds_asis (B : Z) (md : mode) (p sig ex : Z) : result (frac * frac * bool * bool) :=
+  let zero : frac := (0, 1) in
+  let dg := ndigits B (Z.abs sig) in
+  let e := ex + dg - p in
+  let drop := if is_power_of_base sig then 1 else 0 in
+  let ulp := scaled B 1 e 1 in
+  let ulp_tz := scaled B 1 (e - drop) 1 in
+  let half := scaled B ((B + 1) / 2) (e - 1) 1 in
+  let half_tz := scaled B ((B + 1) / 2) (e - 1 - drop) 1 in
+  let neg := sig <? 0 in
+  match md with
+  | MZero =>
+      if p =? 0 then Ok (zero, zero, true, true)
+      else if neg then Ok (ulp, zero, false, true) else Ok (zero, ulp, true, false)
+  | MAway =>
+      if p =? 0 then Ok (zero, zero, true, true)
+      else if neg then Ok (zero, ulp_tz, true, false) else Ok (ulp_tz, zero, false, true)
+  | MDown =>
+      if p =? 0 then Ok (zero, zero, true, true)
+      else if neg then Ok (zero, ulp_tz, true, false) else Ok (zero, ulp, true, false)
+  | MUp =>
+      if p =? 0 then Ok (zero, zero, true, true)
+      else if neg then Ok (ulp, zero, false, true) else Ok (ulp_tz, zero, false, true)
+  | MHalfAway =>
+      if p =? 0 then Ok (zero, zero, true, true)
+      else if neg then Ok (half, half_tz, false, true) else Ok (half_tz, half, true, false)
+  | MHalfEven =>
+      if p =? 0 then Ok (zero, zero, true, true)
+      else
+        let incl := negb (Z.odd sig) || ((B mod 2 =? 0) && (dg <? p)) in
+        let incl_zero := if is_power_of_base sig then B mod 2 =? 0 else incl in
+        if neg then Ok (half, half_tz, incl, incl_zero) else Ok (half_tz, half, incl_zero, incl)
+  end.
+
 (** the pinned (pre-repair) bodies, kept to state the refutations of findings F05 and F08:
     Away/Up/Down call f.ulp() at unlimited precision, HalfEven tests bit 0 of the stored significand *)
 Definition error_bounds_pinned (B : Z) (md : mode) (p sig ex : Z) : result (frac * frac * bool * bool) :=
   match md with
-  | MAway | MDown | MUp => if p =? 0 then Panic UnlimitedPrecision else error_bounds_asis B md p sig ex
+  | MAway | MDown | MUp => if p =? 0 then Panic UnlimitedPrecision else error_bounds_r2 B md p sig ex
   | MHalfEven =>
-      if p =? 0 then error_bounds_asis B md p sig ex
+      if p =? 0 then error_bounds_r2 B md p sig ex
       else let half := scaled B ((B + 1) / 2) (ex + ndigits B (Z.abs sig) - p - 1) 1 in
            Ok (half, half, Z.odd sig, Z.odd sig)
-  | _ => error_bounds_asis B md p sig ex
+  | _ => error_bounds_r2 B md p sig ex
   end.
 
 Definition simplest_from_float_with (eb : Z -> mode -> Z -> Z -> Z -> result (frac * frac * bool * bool))
@@ -277,3 +320,5 @@ Definition simplest_from_float_with (eb : Z -> mode -> Z -> Z -> Z -> result (fr
 
 Definition simplest_from_float_asis := simplest_from_float_with error_bounds_asis.
 Definition simplest_from_float_pinned := simplest_from_float_with error_bounds_pinned.
+(** the code before the repair of F07 *)
+Definition simplest_from_float_r2 := simplest_from_float_with error_bounds_r2.
